@@ -17,9 +17,29 @@ PLAN = {
         "parts": [part("mc_proto", "c02", q=16, t=16)],
         "assumptions": ["caller keeps tail ++ unread remainder of its own reader between handle() calls"],
     },
+    "C03": {
+        "level": "exploration",
+        "parts": [part("mc_proto", "c03", q=8, t=16)],
+        "assumptions": ["hand-written recording interfaces reply {who: name}; generated org.verif.t registered in every configuration"],
+    },
     "C04": {
         "level": "model_checking",
         "parts": [part("mc_proto", "c04", q=4, t=16)],
         "assumptions": [],
+    },
+    "C05": {
+        "level": "model_checking",
+        "parts": [part("mc_proto", "c05", q=4, t=16)],
+        "assumptions": ["for a oneway request a continues-without-more reply attempt may return Ok or the mismatch error (nothing is written either way)"],
+    },
+    "C06": {
+        "level": "fault_enumeration",
+        "parts": [part("mc_proto", "c06", q=16, t=16, tq=300)],
+        "assumptions": ["serde_json is the trusted JSON parser of both service and classifier", "messages with duplicate or unknown top-level members and top-level arrays are classified 'either'"],
+    },
+    "C17": {
+        "level": "exploration",
+        "parts": [part("en_serde", "c17", q=1, t=1)],
+        "assumptions": ["Some(null) == absent for optional members (the property's own equivalence)"],
     },
 }
